@@ -119,6 +119,62 @@ def evaluate_tls(spec):
     return {"sig": sig, "detail": detail, "nontrivial": multi and both, "labels": labels}
 
 
+def evaluate_ns(spec):
+    """capture with nanosecond resolution and times that are not whole microseconds; packet j lies d ns before a full second.  Every
+    exported packet of the connection (TLS: handshake and data segments; QUIC: datagrams) must carry the microsecond time - rounded down
+    or up - of an input packet of that connection."""
+    from fractions import Fraction
+    b = scenario.build(spec)
+    j, d = spec["anchor"]
+    mine = [p for p in b.pkts]
+    pj = mine[j % len(mine)]
+    for i, p in enumerate(b.pkts):
+        p.ts = Fraction(p.ts, 10 ** 6) + Fraction((137 * i) % 1000, 10 ** 9)
+    shift = (pj.ts.__ceil__() - Fraction(d, 10 ** 9)) - pj.ts
+    for p in b.pkts:
+        p.ts += shift
+    o = oracle.run_e2e(b, engine.workdir(), container={"fmt": "pcapng", "tsresol": 9, "endian": spec.get("endian", "<")})
+    cs, conn = spec["conns"][0], b.conns[0]
+    ep = cs["ep"]
+    sig = oracle.base_failure(o)
+    detail = (o.run.exc or "")[-300:] if sig else ""
+    if sig is None:
+        s0, d0 = (oracle.tls_flow_check if cs["kind"] == "tls" else oracle.quic_flow_check)(o, conn, ep)
+        if s0:
+            return {"sig": "content (nanosecond capture): " + s0, "detail": d0, "nontrivial": False}
+        allowed = set()
+        for p in b.pkts:
+            us = p.ts * 10 ** 6
+            allowed |= {us.__floor__(), us.__ceil__()}
+        key = oracle.ep_key(ep, 6 if cs["kind"] == "tls" else 17)[0]
+        for p in o.flows.get(key) or []:
+            if p.ts not in allowed:
+                near = min(allowed, key=lambda a: abs(a - p.ts))
+                sig = "exported packet carries a time that no input packet of the connection has (to the microsecond)"
+                detail = f"{p.ts} us; nearest input time {near} us (difference {p.ts - near} us)"
+                break
+    return {"sig": sig, "detail": detail, "nontrivial": True, "labels": ["ns-capture", cs["kind"], "d:%d" % d]}
+
+
+def ns_specs():
+    out = []
+    i = 0
+    data = lambda dd, n: {"op": "data", "d": dd, "pk": [{"fr": [["stream", 0, n, None, False, True, None]], "gap": 0, "pnl": 0}]}
+    for d in (1, 2, 64, 127, 128, 129, 255, 256, 400, 999, 1000):
+        for j in (0, 3, 6, 9, 14):
+            for kind in ("tls", "quic"):
+                if kind == "tls":
+                    c = {"kind": "tls", "version": [0x0303, 0x0304][i % 2], "suite": [0xC02F, 0x1301][i % 2], "seed": 7700 + i,
+                         "history": [[0, 30, 0], [1, 300, 0], [0, 9, 0], [1, 50, 0]], "ep": scenario.default_ep(i % 50, v6=bool(i % 3 == 0)),
+                         "tcp": {"mode": "rec", "syn": True, "acks": False, "mss": 1400, "isn_c": 10 + i, "isn_s": 90 + i}}
+                else:
+                    c = {"kind": "quic", "suite": 0x1301, "seed": 7900 + i, "steps": [data(0, 20), data(1, 200), data(0, 21), data(1, 201)],
+                         "ep": scenario.default_ep(i % 50, v6=bool(i % 3 == 0))}
+                out.append({"conns": [c], "order": [0], "tseed": 1 + i, "anchor": [j, d], "endian": "<>"[i % 2]})
+                i += 1
+    return out
+
+
 def evaluate_quic(spec):
     b = scenario.build(spec)
     o = oracle.run_e2e(b, engine.workdir())
@@ -162,12 +218,14 @@ def stages(tier):
     quick = tier == "quick"
     return [
         Stage("tls-provenance", evaluate_tls, strategy=tls_strategy, examples=800 if quick else 20000),
+        Stage("nanosecond-times-near-a-full-second", evaluate_ns, specs=ns_specs()),
         Stage("quic-feature-grid", evaluate_quic, specs=_quic_grid()),
         Stage("quic-provenance", evaluate_quic, strategy=lambda t: strategies.single_quic_scenario(max_steps=10), examples=1200 if quick else 20000),
     ]
 
 
-RULE = ("C01/C02 scenarios with arbitrary MAC / IP / port values, IPv4 and IPv6, irregular capture times with arbitrary microsecond parts, "
+RULE = ("stage nanosecond-times-near-a-full-second: TLS and QUIC captures with if_tsresol 9, times that are not whole microseconds and one packet 1..1000 ns "
+        "before a full second - every exported packet carries the (floor or ceiling) microsecond time of an input packet of its connection; other stages: C01/C02 scenarios with arbitrary MAC / IP / port values, IPv4 and IPv6, irregular capture times with arbitrary microsecond parts, "
         "segmentations in which records span several packets and packets hold several records, retransmitted duplicates; provenance model: every "
         "exported data segment lies inside one record and carries the capture time of an input packet whose bytes overlap that record, with the "
         "sender's MAC/IP/port as source and the receiver's as destination (client port unchanged, IP version kept); the synthetic handshake "
